@@ -2,5 +2,5 @@ From Coq Require Extraction ExtrOcamlBasic.
 From Wz Require Import lib.Bytes lib.Utf8 lib.ExtractBase C08.LibStr C08.Gen C08.Model C05.Base C05.Gen C05.Model.
 Extraction Language OCaml.
 (* iri_to_uri instantiated with the identity: the correspondence runs use Location values it leaves alone *)
-Definition wsgi_response_id (r : resp) (is_head : bool) := wsgi_response (fun s => s) r is_head.
+Definition wsgi_response_id (r : resp) (is_head : bool) := wsgi_response (fun s => s) (fun _ l => l) [] r is_head.
 Extraction "C05/model_extracted.ml" force_types clean_status make_sequence wsgi_response_id.
